@@ -183,6 +183,6 @@ FamRebind3 == {"lit", "var", "bin", "let", "badlet", "reserved"}       \* three 
 FamBind == {"lit", "var", "bin", "func", "call", "fmt1", "module", "copy", "let", "badlet", "reserved", "tuple"}
 FamSim == {"lit", "var", "bin", "not", "let", "exprstmt", "list", "tuple", "dot", "copy", "self", "in", "is",
            "select", "func", "call", "badcall", "module", "fop", "fmt", "fmtbad", "fmt1", "range", "cast", "fail",
-           "trace", "letuse", "dotcall", "dotcopy"}
+           "trace", "letuse", "dotcall", "dotcopy", "conlet"}
 FamAll == FamOps \cup FamData \cup FamSelect \cup FamFunc \cup FamMod \cup FamFop \cup FamMisc
 =============================================================================
